@@ -4,6 +4,7 @@ Driver for C05: reads the harness protocol on stdin. For every case it parses th
 runs the frontend model (`build`) once, and for every input valuation the harness simulated computes
 (a) `run` — the sequential interpreter (the specification) and (b) `outputs` = `evalNodes ∘ build` (the model of the code).
 `PROPFAIL` = implementation ≠ `run` (the property fails on a concrete program + input),
+`OBS`      = counted observation that is not a C05 verdict (design.postprocess() threw),
 `DIFF`     = implementation ≠ model (correspondence broken).
 -/
 open Gatery.C05
@@ -107,6 +108,7 @@ partial def parseStmts (h : IO.FS.Stream) (hist : Hist) (depth : Nat) : IO (Opti
   let mut out : Array PStmt := #[]
   let mut hist := hist
   let mut ok := true
+  let mut prevCond : Option Nat := none
   repeat
     let line ← h.getLine
     if line.isEmpty then break
@@ -114,6 +116,7 @@ partial def parseStmts (h : IO.FS.Stream) (hist : Hist) (depth : Nat) : IO (Opti
     let (hd, k) := k.next
     if hd == "}" || hd == "endprog" then break
     hist := hist.bump hd |>.bump s!"depth{depth}"
+    if hd != "IF" && hd != "EI" && hd != "E2" then prevCond := none
     match hd with
     | "D" =>
       let (ty, k) := k.next
@@ -142,6 +145,13 @@ partial def parseStmts (h : IO.FS.Stream) (hist : Hist) (depth : Nat) : IO (Opti
     | "IF" | "EI" | "E2" =>
       match parseExpr k with
       | some (c, _) =>
+        -- conditions that are a plain signal, and chains that test the very same signal again (same node port)
+        match c with
+        | .read x [] =>
+          hist := hist.bump "cond:signal"
+          if hd != "IF" && prevCond == some x then hist := hist.bump s!"{hd}:same-signal-as-previous"
+          prevCond := some x
+        | _ => prevCond := none
         let (b, hist') ← parseStmts h hist (depth + 1)
         hist := hist'
         match b with
@@ -193,8 +203,8 @@ structure D where
   propfails : Nat := 0
   oor : Nat := 0           -- valuations skipped: an executed dynamic index is out of range
   rejected : Nat := 0      -- programs both the frontend and the model reject
-  postcrashOor : Nat := 0  -- postprocess() threw and every valuation has an executed out-of-range index
-  clashCases : Nat := 0
+  obsPostThrew : Nat := 0         -- observations: design.postprocess() threw
+  obsPostThrewInRange : Nat := 0  -- … although every dynamic selection was in range under every simulated valuation
   nodes : Nat := 0
   ops : Nat := 0           -- node evaluations + interpreter runs
   hist : Hist := {}
@@ -231,7 +241,7 @@ partial def loop (h : IO.FS.Stream) (d : D) (c : Case) : IO D := do
     let built := prog.bind fun p => build p (initState ins)
     let mut d := { d with hist := hist }
     if let some B := built then
-      d := { d with nodes := d.nodes + B.nodes.size, clashCases := d.clashCases + (if B.clash then 1 else 0) }
+      d := { d with nodes := d.nodes + B.nodes.size }
     if prog.isNone then
       IO.println s!"DIFF case={c.id} what=unparsed-program"
       d := { d with diffs := d.diffs + 1 }
@@ -252,15 +262,13 @@ partial def loop (h : IO.FS.Stream) (d : D) (c : Case) : IO D := do
   | "end" =>
     match c.postcrash with
     | some msg =>
-      -- (a constant index that is out of range makes postprocess() assert; that is a rejected design, not a property failure)
-      -- postprocess() asserts when the optimiser meets a multiplexer whose (specialised) selector is a constant beyond its inputs:
-      -- a rejected design, not a property failure. Accepted whenever the design has a dynamic selection that is out of range for
-      -- at least one simulated valuation (executed or not); a design whose selections are all in range has no such excuse.
-      if c.okVals > 0 && !c.anyOor then
-        -- a program of the class on which design.postprocess() throws: no postprocessed circuit to observe
-        IO.println s!"PROPFAIL case={c.id} sig=postprocess-threw:{locOf msg} stage=post msg=[{msg}]"
-        loop h { d with propfails := d.propfails + 1 } {}
-      else loop h { d with postcrashOor := d.postcrashOor + 1 } {}
+      -- An exception thrown by design.postprocess() is not a C05 violation (C05 is about the frontend's sequential semantics;
+      -- what post-processing preserves is C01's business and a throw is not a wrong value): counted observation.
+      -- `inrange` = every dynamic selection of the design stayed in range under every simulated valuation (so the throw cannot be
+      -- blamed on a constant out-of-range index, which makes the optimiser assert by design).
+      let inrange := c.okVals > 0 && !c.anyOor
+      IO.println s!"OBS case={c.id} what=postprocess-threw loc={locOf msg} all-selections-in-range={inrange} msg=[{msg}]"
+      loop h { d with obsPostThrew := d.obsPostThrew + 1, obsPostThrewInRange := d.obsPostThrewInRange + (if inrange then 1 else 0) } {}
     | none => loop h d {}
   | "nout" =>
     let mut d := d
@@ -291,12 +299,11 @@ partial def loop (h : IO.FS.Stream) (d : D) (c : Case) : IO D := do
             for (tag, impl) in [("pre", pre), ("post", post)] do
               if impl == ["-"] then continue
               if impl != specS.take nTop && !c.reportedP then
-                -- classification for the replay file: port clash of a two-scope ELSE IF / postprocess() changed a value the
-                -- un-postprocessed circuit had right / anything else
+                -- classification for the replay file: postprocess() changed a value the un-postprocessed circuit had right
+                -- (or, without a pre-simulation because of a Node_Default, a value the model has right) / anything else
                 let sig := if tag == "post" && pre != ["-"] && pre == specS.take nTop then "postprocess-changed-value"
-                           else if B.clash then "elseif2-same-condition-port"
-                           else if tag == "post" && pre == ["-"] && model.take nTop == specS.take nTop then "postprocess-changed-value"  -- no pre-simulation (Node_Default); the model agrees with the interpreter
-                           else "other"
+                           else if tag == "post" && pre == ["-"] && model.take nTop == specS.take nTop then "postprocess-changed-value"
+                           else "frontend-not-sequential"
                 IO.println s!"PROPFAIL case={c.id} sig={sig} stage={tag} inputs=[{inS}] sequential=[{" ".intercalate specS}] impl=[{" ".intercalate impl}]"
                 d := { d with propfails := d.propfails + 1 }
                 c := { c with reportedP := true }
@@ -318,4 +325,4 @@ partial def loop (h : IO.FS.Stream) (d : D) (c : Case) : IO D := do
 
 def main : IO Unit := do
   let d ← loop (← IO.getStdin) {} {}
-  IO.println s!"SUMMARY \{\"cases\":{d.cases},\"valuations\":{d.vals},\"ops\":{d.ops},\"diffs\":{d.diffs},\"propfails\":{d.propfails},\"oor_skipped\":{d.oor},\"rejected\":{d.rejected},\"postcrash_oor\":{d.postcrashOor},\"undef_skipped\":{d.undefSkipped},\"clash_cases\":{d.clashCases},\"nodes\":{d.nodes},\"hist\":{d.hist.json}}"
+  IO.println s!"SUMMARY \{\"cases\":{d.cases},\"valuations\":{d.vals},\"ops\":{d.ops},\"diffs\":{d.diffs},\"propfails\":{d.propfails},\"oor_skipped\":{d.oor},\"rejected\":{d.rejected},\"obs_postprocess_threw\":{d.obsPostThrew},\"obs_postprocess_threw_all_in_range\":{d.obsPostThrewInRange},\"undef_skipped\":{d.undefSkipped},\"nodes\":{d.nodes},\"hist\":{d.hist.json}}"
